@@ -21,20 +21,30 @@ func TestTwinTargets(t *testing.T) {
 		Parents: [][]int{{3}, {4}, {5}, nil, nil, nil},
 		Present: []bool{true, true, true, false, true, false},
 	}
+	// the same id under different types (one id, three action types): a list keyed by id alone loses members
+	sameID := &Case{
+		N:       6,
+		Types:   []string{"T0", "T0", "T0", "P::Action", "D::Action", "Action"},
+		UIDs:    [][2]string{{"T0", "view"}, {"T0", "b"}, {"T0", "c"}, {"P::Action", "view"}, {"D::Action", "view"}, {"Action", "view"}},
+		Parents: [][]int{{3}, {4}, {5}, nil, nil, nil},
+		Present: []bool{true, true, true, false, true, false},
+	}
 	n := 0
-	for src := 0; src < 6; src++ {
-		for _, targets := range [][]int{{3, 4, 5}, {5, 4, 3}, {4, 3, 5}, {3, 4}, {4, 3}, {4, 5}, {5, 4}, {3, 5}, {5, 3}, {3}, {4}, {5}, {3, 3, 4}} {
-			for _, form := range []string{"inset", "isinset", "scope-a-inset"} {
-				c := cloneCase(base)
-				c.Src, c.Targets, c.Form, c.IsType = src, targets, form, base.Types[src]
-				n++
-				ev.R.Case(ir.Hash(c), true, "twin-targets", "form:"+form)
-				if msg := checkCase(c, nil); msg != "" {
-					report(t, "twin-targets", c, msg)
-					return
+	for _, base := range []*Case{base, sameID} {
+		for src := 0; src < 6; src++ {
+			for _, targets := range [][]int{{3, 4, 5}, {5, 4, 3}, {4, 3, 5}, {3, 4}, {4, 3}, {4, 5}, {5, 4}, {3, 5}, {5, 3}, {3}, {4}, {5}, {3, 3, 4}} {
+				for _, form := range []string{"inset", "isinset", "scope-a-inset"} {
+					c := cloneCase(base)
+					c.Src, c.Targets, c.Form, c.IsType = src, targets, form, base.Types[src]
+					n++
+					ev.R.Case(ir.Hash(c), true, "twin-targets", "form:"+form)
+					if msg := checkCase(c, nil); msg != "" {
+						report(t, "twin-targets", c, msg)
+						return
+					}
 				}
 			}
 		}
 	}
-	ev.R.Space("target lists of uids whose type+id concatenations coincide x source x list order x {in, is-in, action scope list}", n)
+	ev.R.Space("target lists of uids whose type+id concatenations coincide / whose ids coincide across types x source x list order x {in, is-in, action scope list}", n)
 }
